@@ -42,7 +42,35 @@ from happysimulator.faults import (  # noqa: E402
     ReduceCapacity,
 )
 
+from happysimulator.components.queue import Queue  # noqa: E402
+from happysimulator.components.queue_driver import QueueDriver  # noqa: E402
+from happysimulator.core.temporal import Duration  # noqa: E402
+from happysimulator.distributions.exponential import ExponentialLatency  # noqa: E402
+from happysimulator.distributions.latency_distribution import LatencyDistribution  # noqa: E402
+
 from hsverif.probe import EngineProbe, quiet_library_logging  # noqa: E402
+
+import random as _random  # noqa: E402
+
+
+class ScriptedLatency(LatencyDistribution):
+    """Harness subclass of the public LatencyDistribution: samples come from its own seeded RNG
+    (uniform in [0.5, 1.5] x mean) and every sample handed out is recorded with the clock value it was
+    asked for, in a registry that survives copy / deepcopy of the distribution object."""
+
+    LOG: dict = {}
+
+    def __init__(self, mean_s: float, seed: int, key: str):
+        super().__init__(mean_s)
+        self._rng = _random.Random(seed)
+        self._mean_s = mean_s
+        self.key = key
+        ScriptedLatency.LOG.setdefault(key, [])
+
+    def get_latency(self, current_time):
+        d = Duration.from_seconds(self._mean_s * (0.5 + self._rng.random()))
+        ScriptedLatency.LOG[self.key].append((current_time.nanoseconds, d.nanoseconds))
+        return d
 
 INF = 1 << 62
 
@@ -169,6 +197,31 @@ class GenNode(Entity):
         return _steps_process(self, md, self.log, self.sink, self.resolver)
 
 
+class BoundedGenNode(GenNode):
+    """Generator worker with a concurrency limit (reported through the public has_capacity())."""
+
+    def __init__(self, name, log, sink, resolver, conc):
+        super().__init__(name, log, sink, resolver)
+        self.conc = conc
+        self.active = 0
+
+    def has_capacity(self) -> bool:
+        return self.active < self.conc
+
+    def handle_event(self, event):
+        md = event.context.get("metadata", {})
+        self.log.append((self.now.nanoseconds, "h", md.get("id"), "work"))
+        return self._serve(md)
+
+    def _serve(self, md):
+        self.active += 1
+        try:
+            out = yield from _steps_process(self, md, self.log, self.sink, self.resolver)
+        finally:  # also runs when the engine discards the process (dropped wake-up of a crashed worker)
+            self.active -= 1
+        return out
+
+
 class QRNode(QueuedResource):
     """Harness subclass of the public QueuedResource: concurrency-limited multi-step service."""
 
@@ -270,6 +323,7 @@ def _once(t_ns, name, fn):
 def execute(case: dict, faults: list | None = None) -> dict:
     """Run the case (optionally with a replaced fault list) and return raw observations."""
     quiet_library_logging()
+    _random.seed(case.get("rand_seed", 20260922))  # ExponentialLatency links sample from the global RNG
     faults = case.get("faults", []) if faults is None else faults
     horizon = case["horizon_ns"]
     obs: dict = {
@@ -301,6 +355,10 @@ def execute(case: dict, faults: list | None = None) -> dict:
     # ---- nodes (targets, bystanders, network endpoints)
     nodes: dict[str, Entity] = {}
     queued: dict[str, Entity] = {}
+    front: dict[str, Entity] = {}  # where requests for a node are addressed (default: the node itself)
+    qd_queues: dict[str, Queue] = {}
+    run_key = f"run{id(obs)}"
+    originals: dict = {}
     for n in case.get("nodes", []):
         name, kind = n["name"], n["kind"]
         log = obs["node_log"].setdefault(name, [])
@@ -308,6 +366,16 @@ def execute(case: dict, faults: list | None = None) -> dict:
             ent = PlainNode(name, log, sink, net, peers)
         elif kind == "gen":
             ent = GenNode(name, log, sink, resolver)
+        elif kind == "qdw":
+            # plain generator worker (unbounded, or concurrency 1..3) behind an explicit Queue -> QueueDriver pair;
+            # faults name the worker, requests are addressed to the queue
+            ent = GenNode(name, log, sink, resolver) if not n.get("conc") else BoundedGenNode(name, log, sink, resolver, n["conc"])
+            q = Queue(name=f"{name}.q")
+            drv = QueueDriver(name=f"{name}.d", queue=q, target=ent)
+            q.egress = drv
+            entities.extend([q, drv])
+            front[name] = q
+            qd_queues[name] = q
         elif kind == "queued":
             ent = QRNode(name, n.get("conc", 1), log, sink, resolver)
             queued[name] = ent
@@ -323,7 +391,17 @@ def execute(case: dict, faults: list | None = None) -> dict:
             peers[nn] = nodes[nn]
         for ln in netspec["links"]:
             a, b = nodes[ln["a"]], nodes[ln["b"]]
-            link = NetworkLink(name=f"l_{a.name}_{b.name}", latency=ConstantLatency(ln["base_ns"] / 1e9))
+            dist = ln.get("dist", "const")
+            if dist == "scripted":
+                lat = ScriptedLatency(ln["base_ns"] / 1e9, ln.get("dist_seed", 1), f"{run_key}/{a.name}>{b.name}")
+            elif dist == "exp":
+                lat = ExponentialLatency(ln["base_ns"] / 1e9)
+            else:
+                lat = ConstantLatency(ln["base_ns"] / 1e9)
+            originals[(a.name, b.name)] = lat
+            if ln.get("bidir"):
+                originals[(b.name, a.name)] = lat
+            link = NetworkLink(name=f"l_{a.name}_{b.name}", latency=lat)
             if ln.get("bidir"):
                 net.add_bidirectional_link(a, b, link)
                 links[(a.name, b.name)] = net.get_link(a.name, b.name)
@@ -332,7 +410,9 @@ def execute(case: dict, faults: list | None = None) -> dict:
                 net.add_link(a, b, link)
                 links[(a.name, b.name)] = link
 
-    dispatcher = Dispatcher("dispatcher", nodes)
+    for _n, _e in nodes.items():
+        front.setdefault(_n, _e)
+    dispatcher = Dispatcher("dispatcher", front)
     entities.append(dispatcher)
 
     # ---- resources
@@ -368,7 +448,7 @@ def execute(case: dict, faults: list | None = None) -> dict:
             md["steps"] = w["steps"]
         if "dst" in w:
             md["dst"] = w["dst"]
-        tgt = nodes[w["to"]]
+        tgt = front[w["to"]]
         if w.get("via") is not None:  # created during the run, at t=via, by the dispatcher; due at w["t"]
             pre.append(
                 Event(
@@ -430,12 +510,21 @@ def execute(case: dict, faults: list | None = None) -> dict:
     fin["links"] = {
         f"{a}>{b}": {
             "loss": lk.packet_loss_rate,
-            "latency_ns": lk.latency.get_latency(Instant(0)).nanoseconds,
+            "latency_ns": lk.latency.get_latency(Instant(0)).nanoseconds if isinstance(originals.get((a, b)), ConstantLatency) else None,
+            "latency_is_configured_object": lk.latency is originals.get((a, b)),
             "dropped": lk.packets_dropped,
             "sent": lk.packets_sent,
         }
         for (a, b), lk in links.items()
     }
+    obs["scripted_latency"] = {}
+    _logs: dict = {}
+    for (a, b), lat in originals.items():
+        if isinstance(lat, ScriptedLatency):
+            if lat.key not in _logs:
+                _logs[lat.key] = ScriptedLatency.LOG.pop(lat.key, [])
+            obs["scripted_latency"][f"{a}>{b}"] = _logs[lat.key]
+    fin["queue_depth"] = {n: q.depth for n, q in qd_queues.items()}
     if net is not None:
         names = netspec["nodes"]
         fin["partitioned"] = [[a, b] for a in names for b in names if a != b and net.is_partitioned(a, b)]
